@@ -284,7 +284,7 @@ def parsed_cache_bytes(ext, content):
 def cache_on_disk_claim(fa, data):
     """
     What a later process finds: if <fa>.fai and <fa>.agp both exist and are strictly newer than the FASTA they pass for
-    valid, so (read with the parsers below, not the library's) they must describe `data`.  None if there is no such
+    valid, so (read with the parsers above, not the library's) they must describe `data`.  None if there is no such
     claim, the files are not parseable (a reader fails loudly) or they are right; else a message.
     """
     try:
@@ -427,9 +427,8 @@ class FileOps:
         try:
             with self.saved["open"](src_s, "rb") as fh:
                 got, n_lines = parsed_cache_bytes(ext, fh.read())
-        except OSError as e:
-            self.violation(f"the file {src_s} renamed to {os.path.basename(dst_s)} cannot be read at that moment ({e})")
-            return
+        except OSError:
+            return  # nothing there (any more): the rename itself is going to fail, loudly
         index, asm = brute(self.data)
         want, what = (index, "index rows") if ext == ".fai" else (asm, "scaffolds")
         if got != want:
@@ -474,11 +473,11 @@ class FileOps:
         self.before = {p: self.entry_sig(p) for p in self.finals}
 
         def my_open(file, mode="r", buffering=-1, encoding=None, errors=None, newline=None, closefd=True, opener=None):
-            if opener is not None or not self.watched(file):
-                return real_open(file, mode, buffering, encoding, errors, newline, closefd, opener)
             rawmode = mode.replace("b", "").replace("t", "")
             if rawmode != "r":
                 self.check_opened_for_writing(file, f"open(..., {mode!r})")
+            if opener is not None or not self.watched(file):
+                return real_open(file, mode, buffering, encoding, errors, newline, closefd, opener)
             raw = EventFileIO(os.fspath(file), rawmode, self.hook)
             if rawmode == "r":
                 buf = io.BufferedReader(raw)
